@@ -118,7 +118,7 @@ FUZZ_IMPORTS = ['mwlib.parser.refine.uparser', 'mwlib.parser.refine.core', 'mwli
 
 def run_shard(ctx):
     _doc.warmup()
-    @ctx.settings(ctx.n(16000, 320000))
+    @ctx.settings(ctx.n(16000, 240000))
     @given(_doc.documents(restricted=True))
     def t(doc):
         ctx.announce(doc)
